@@ -136,9 +136,13 @@ func accumulator(c *mon.Ctx, cfg hcfg, N int, rng *gen.Rng) {
 			for k := 0; k < n; k++ {
 				t.Push(lv[k])
 				if (i+k)%5 == 0 {
-					c.Check("Root", L+"/Root/intermediate-mismatch", bytes.Equal(t.Root(), m.mth(0, k+1)), func() string {
+					r := t.Root()
+					c.Check("Root", L+"/Root/intermediate-mismatch", bytes.Equal(r, m.mth(0, k+1)), func() string {
 						return fmt.Sprintf("n=%d i=%d: Root() after %d pushes", n, i, k+1)
 					})
+					// the root handed out is the caller's: overwritten (with its spare capacity), it must not reach the
+					// tree - the following roots and the proof would show it
+					scribble(r)
 				}
 			}
 			if i%2 == 0 {
@@ -150,7 +154,11 @@ func accumulator(c *mon.Ctx, cfg hcfg, N int, rng *gen.Rng) {
 				return fmt.Sprintf("n=%d i=%d root=%x wantRoot=%x proofLen=%d wantLen=%d idx=%d numLeaves=%d", n, i, root, wantRoot, len(ps), len(want), idx, nl)
 			}
 			{
+				// the root is handed out as a copy (the proof set is documented state of the tree and is left alone)
+				keepRoot := append([]byte(nil), root...)
+				scribble(root)
 				root2, ps2, idx2, nl2 := t.Prove()
+				root = keepRoot
 				c.Check("Prove", L+"/Prove/second-call-differs", bytes.Equal(root2, wantRoot) && eqSets(ps2, want) && idx2 == uint64(i) && nl2 == uint64(n), func() string {
 					return desc() + fmt.Sprintf("; second Prove(): root=%x proofLen=%d", root2, len(ps2))
 				})
@@ -316,6 +324,14 @@ func randDecomp(rng *gen.Rng, n, i int) []piece {
 		}
 	}
 	return res
+}
+
+// scribble overwrites a returned slice over its whole capacity.
+func scribble(b []byte) {
+	b = b[:cap(b)]
+	for i := range b {
+		b[i] ^= 0xA5
+	}
 }
 
 func log2(x int) int {
